@@ -271,6 +271,11 @@ func checkJsonRpcUrlChildCompatible(d *directive.Directive) *jerr.JApiError {
 	var isBaseJsonRpc bool
 
 	for _, dd := range d.Children {
+		if dd.Type() == directive.Tags {
+			// Neither an HTTP nor a JSON-RPC directive: the methods of both
+			// protocols fall back to the Tags of their URL.
+			continue
+		}
 		if base == nil {
 			base = dd
 			isBaseJsonRpc = isJsonRpcUrlChildDirective(base)
